@@ -1077,16 +1077,19 @@ impl CodegenContext {
                         Identifier::new(format!("$macro_{}", self.next_macro_scope_id));
                     self.next_macro_scope_id += 1;
 
+                    // The arguments belong to the invocation, so they are evaluated in its scope and not in the macro's:
+                    // there 'm(v)' would refer to the parameter itself if that happens to be called 'v' as well
+                    let mut values = vec![];
+                    for (expr, _) in args.iter().take(def.args.len()) {
+                        values.push(self.evaluate_expression(expr, true)?);
+                    }
+
                     self.macro_invocation_depth += 1;
                     let result = self.with_scope(&macro_scope, None, |s| {
                         for (idx, arg_name) in def.args.iter().enumerate() {
-                            let (expr, _) = args.get(idx).unwrap();
-
                             // Regardless if evaluation succeeds, we should create the macro argument symbol here, because
                             // it will be undefined otherwise
-                            let value = s
-                                .evaluate_expression(expr, true)?
-                                .unwrap_or(SymbolData::Placeholder);
+                            let value = values[idx].take().unwrap_or(SymbolData::Placeholder);
                             s.add_symbol(
                                 &arg_name.data,
                                 s.symbol(arg_name.span, value, SymbolType::MacroArgument),
